@@ -89,19 +89,25 @@ impl WriteCircuitBreaker {
                 if now - last_failure >= self.recovery_timeout.as_millis() as u64 {
                     // Transition to half-open to test recovery
                     self.transition_to_half_open();
-                    true
+                    // The transitioning caller is itself a probe: count it like every
+                    // other half-open request
+                    self.try_acquire_half_open_call()
                 } else {
                     false // Still in failure mode
                 }
             }
             CircuitState::HalfOpen => {
                 // Allow limited requests to test system recovery
-                #[cfg(sierradb_verif)]
-                verif::pause("allow.hocc");
-                let current_calls = self.half_open_call_count.fetch_add(1, Ordering::AcqRel);
-                current_calls < self.half_open_max_calls
+                self.try_acquire_half_open_call()
             }
         }
+    }
+
+    fn try_acquire_half_open_call(&self) -> bool {
+        #[cfg(sierradb_verif)]
+        verif::pause("allow.hocc");
+        let current_calls = self.half_open_call_count.fetch_add(1, Ordering::AcqRel);
+        current_calls < self.half_open_max_calls
     }
 
     pub fn record_success(&self) {
@@ -249,13 +255,9 @@ impl WriteCircuitBreaker {
             Ordering::AcqRel,
             Ordering::Acquire,
         );
-        // Reset half-open counters
-        #[cfg(sierradb_verif)]
-        verif::pause("tho.hocc");
-        self.half_open_call_count.store(0, Ordering::Release);
-        #[cfg(sierradb_verif)]
-        verif::pause("tho.hosc");
-        self.half_open_success_count.store(0, Ordering::Release);
+        // The half-open counters are not touched here: they were reset when the circuit
+        // opened, and a reset at this point (by the winner or a loser of the exchange)
+        // would discard probes already counted by concurrent callers.
     }
 
     fn transition_to_closed(&self) {
